@@ -85,6 +85,11 @@ def native_compare(skel, variant="default", what="expected", seed=7, batch=None)
         return {"reproduced": True, "disagreements": [f"construction failed: {type(e).__name__}: {e}"]}
     lay = native_layout(model)
     bad = []
+    if what == "logpdf":
+        want_aux = O.default_auxdata(O.FOps, spec, lay)
+        got_aux = [float(x) for x in model.config.auxdata]
+        if len(got_aux) != len(want_aux) or any(abs(a - b) > 1e-9 * max(1, abs(b)) for a, b in zip(got_aux, want_aux)):
+            bad.append({"what": "config.auxdata (nominal auxiliary data in the reported order, overrides verbatim)", "got": got_aux, "oracle": want_aux})
     for trial in range(6):
         rows = [random_theta(model, rng, wide=trial % 2 == 0) for _ in range(batch or 1)]
         nmain = model.config.nmaindata
